@@ -201,12 +201,19 @@ async fn serve_stream(
     inner.update(idx, |r| r.gzip = compressed_flag);
 
     // ---- act
+    // The outcome is logged BEFORE the response is handed to h2 (see http1.rs): a check reading the log
+    // right after the client acted on the response must already see it. A failed send downgrades it.
+    let plan = |o: Outcome| inner.update(idx, |r| r.outcome = o);
     let outcome = match decision {
-        Decision::Ack => match send_ack(&mut respond) {
-            Ok(()) => Outcome::Acked,
-            Err(_) => Outcome::Dropped,
-        },
+        Decision::Ack => {
+            plan(Outcome::Acked);
+            match send_ack(&mut respond) {
+                Ok(()) => Outcome::Acked,
+                Err(_) => Outcome::Dropped,
+            }
+        }
         Decision::AckThenClose => {
+            plan(Outcome::Acked);
             let r = send_ack(&mut respond);
             let _ = cmd.send(ConnCmd::Graceful);
             match r {
@@ -217,6 +224,7 @@ async fn serve_stream(
         Decision::Hold(latch) => {
             inner.update(idx, |r| r.phase = Phase::Held);
             if wait_while(&inner, &mut respond, || !inner.latch_released(latch)).await {
+                plan(Outcome::Acked);
                 match send_ack(&mut respond) {
                     Ok(()) => Outcome::Acked,
                     Err(_) => Outcome::Dropped,
@@ -225,18 +233,16 @@ async fn serve_stream(
                 Outcome::Dropped
             }
         }
-        Decision::Status(s) => match respond.send_response(grpc_headers(s), true) {
-            Ok(_) => {
-                if (200..300).contains(&s) {
-                    // a 2xx without any grpc-status is not an acknowledgement in gRPC terms
-                    Outcome::Rejected
-                } else {
-                    Outcome::Rejected
-                }
+        // (a 2xx without any grpc-status is not an acknowledgement in gRPC terms either)
+        Decision::Status(s) => {
+            plan(Outcome::Rejected);
+            match respond.send_response(grpc_headers(s), true) {
+                Ok(_) => Outcome::Rejected,
+                Err(_) => Outcome::Dropped,
             }
-            Err(_) => Outcome::Dropped,
-        },
+        }
         Decision::GrpcStatus(code) => (|| {
+            plan(if code == 0 { Outcome::Acked } else { Outcome::Rejected });
             let mut send = respond.send_response(grpc_headers(200), false)?;
             let mut trailers = HeaderMap::new();
             trailers.insert("grpc-status", HeaderValue::from_str(&code.to_string()).unwrap());
@@ -246,6 +252,7 @@ async fn serve_stream(
         .map(|()| if code == 0 { Outcome::Acked } else { Outcome::Rejected })
         .unwrap_or(Outcome::Dropped),
         Decision::GrpcStatusTrailersOnly(code) => {
+            plan(if code == 0 { Outcome::Acked } else { Outcome::Rejected });
             let mut res = grpc_headers(200);
             res.headers_mut().insert("grpc-status", HeaderValue::from_str(&code.to_string()).unwrap());
             res.headers_mut().insert("grpc-message", HeaderValue::from_static("scripted"));
